@@ -9,7 +9,7 @@ CLAIMED = {
             "identity/integer/odd; crop contains the interpolation support for order>=1 (order 0: refuted witness = known finding). "
             "Tie: anchors regenerated from acryo/_utils.py on every run + exact correspondence of load()/asnumpy()/load_iter()/"
             "construct_dask() voxels with the Coq model (orders 0/1, 24 exact rotations, numpy+dask chunkings). Order-3 / generic "
-            "rotations only by numeric oracle (partial).",
+            "rotations only by numeric oracle (partial). The box given to a call wins over the loader's own box (generated rule).",
             "regenerated anchors + Coq theorems + in-Coq differential correspondence"),
 }
 CLAIMED["C05"] = (
@@ -59,7 +59,7 @@ CLAIMED["C03"] = (
     "_batch.py/_base.py/_group.py; random operation histories (filter/head/tail/sort/sample/subset-replace, groupby) on real "
     "Subtomogram/Batch loaders whose tomograms encode (image, position): tags, image ids, loaded voxels, apply rows, group keys/"
     "members and purity of all earlier objects are checked against the model inside Coq; sort/sample are validated as (sorted) "
-    "permutation / sub-multiset. align/score/landscape rows on interleaved batches: metamorphic oracle.",
+    "permutation / sub-multiset. align/score/landscape rows on interleaved batches: metamorphic oracle. apply(): the table is built one column per function, so entry (i, j) is function j of molecule i for every table shape (facts for LoaderBase.apply and LoaderGroup.apply); MockLoader.replace forwards every option.",
     "regenerated anchors + Coq list theorems + in-Coq history correspondence")
 CLAIMED["C12"] = (
     "Theorems (Coq): every operation (subset by int/slice/index list/mask, filter, head, tail, concat, sort, sample) returns rows of "
@@ -69,7 +69,7 @@ CLAIMED["C12"] = (
     "random operation histories on real Molecules whose position, orientation and 6 feature columns (int/float/string/bool/nullable) "
     "all encode a tag: decoded independently and compared with the model inside Coq after every step, incl. group_by/cutby groups, "
     "rejected int indices and purity of earlier objects. Rejection of inconsistent inputs: oracle probes. cutby on null category: "
-    "known finding.",
+    "known finding. No table operation returns its receiver except the documented copy=False forms (generated fact over 23 methods), checked dynamically by an aliasing oracle.",
     "regenerated anchors + Coq list theorems + in-Coq history correspondence")
 CLAIMED["C09"] = (
     "Theorems (Coq, Q and lists): the sum and count of a stack are invariant under chunking/batching (concat) and regrouping "
@@ -78,7 +78,7 @@ CLAIMED["C09"] = (
     "both halves are non-empty for n >= 2, and the half sums/counts recombine to the whole. Tie: sample-size expression and "
     "structural anchors regenerated; random_splitter driven by a scripted generator (exact masks); average / average_split / "
     "BatchLoader / LoaderGroup averages on integer tomograms (numpy + 3 dask chunkings) compared voxel-wise with the exact rational "
-    "means computed in Coq; seeded reproducibility checked on the implementation. Generic poses / order 3 / n_set>1: numeric oracle.",
+    "means computed in Coq; seeded reproducibility checked on the implementation. Generic poses / order 3 / n_set>1: numeric oracle. Loaders store their inputs and options only and task arrays are named by content (class-state / call facts): no stale or shared graphs.",
     "regenerated anchors + Coq theorems (Q, induction, pigeonhole) + in-Coq correspondence")
 CLAIMED["C14"] = (
     "Theorems (Coq, Q/Z, every template side parity and every rational position): fragment start + output centre = pos/scale (the "
@@ -87,7 +87,7 @@ CLAIMED["C14"] = (
     "an aligned source slice, a window with no overlap is skipped (iff), never an exception; sums are order independent. Tie: all "
     "scalar expressions of _prep_iterators and make_slice_and_pad regenerated; simulate() on integer templates (sides 1..4), 24 exact "
     "rotations, half-integer positions, several components, orders 0/1 compared voxel-by-voxel with the Coq model; order "
-    "independence, 2-D projection = sum over z, and load-back through SubtomogramLoader (exact / approximate) by oracle.",
+    "independence, 2-D projection = sum over z, and load-back through SubtomogramLoader (exact / approximate) by oracle. Projections (simulate_projection / simulate_tilt_series): pixel coordinates and the template resampling rotation are invariant under rotating the scene and the plane axes rigidly about the centre (any commutative ring), tilt axes orthonormal, tilt 0 = z-projection; a simulator keeps no memo (class-state fact); coordinate expressions anchored as facts; colour simulation, projections and tilt series tied to simulate() by metamorphic oracles.",
     "regenerated anchors + Coq theorems + in-Coq voxel correspondence")
 CLAIMED["C15"] = (
     "Theorems (Coq): binned length = floor(s/b), the kept prefix is the largest multiple of b, blocks tile it (every kept voxel "
@@ -188,7 +188,7 @@ CLAIMED["C20"] = (
     "through pick_molecules over random chunkings x depths x scales, the observed block layout is validated as a tiling and the "
     "reported positions are compared with the model inside Coq; the depth dask actually applied is checked against the requested "
     "per-axis depth. Blob detection with LoG/DoG (5 chunkings, 3 dtypes) and rotated-template matching are numeric oracles; "
-    "the matcher's chunk-border behaviour is a known finding.",
+    "the matcher's chunk-border behaviour is a known finding. Lengths in nm (sigma, min_distance) reach the kernels divided by the scale (generated expressions + fact).",
     "regenerated anchors + Coq tiling theorem + scripted-picker correspondence; numeric oracle for detection")
 CLAIMED["C04"] = (
     "PARTIAL. Theorems (Coq): (Reals) for a sub-volume that is the template displaced by d, the exact circular cross-correlation "
